@@ -8,7 +8,7 @@ use std::time::{Duration, Instant};
 use vl_model::ctx::{hash64, load_replay, Args, Ctx};
 use vl_model::pt::{self, Fail};
 use vl_model::sock::{Peer, Scratch};
-use vl_model::svc::t_service;
+use vl_tsvc::t_service;
 use vl_model::wire::*;
 
 pub const RULE: &str = "scenarios = configuration {idle_timeout 0/1/2 s} x {no stop flag, flag set at a planned time \
@@ -39,11 +39,15 @@ pub struct Scn {
     pub flag_ms: Option<u64>,
     pub workers: (usize, usize),
     pub conns: Vec<ConnPlan>,
+    /// connections that must be served although they arrive after the stop flag was set: they
+    /// arrive inside the poll interval in which the flag is set (pinned by connection 0's accept),
+    /// i.e. before the loop can have looked at the flag
+    pub must_serve: Vec<usize>,
 }
 
 fn scn_json(s: &Scn) -> Value {
     json!({"idle_timeout": s.idle, "flag_set_at_ms": s.flag_ms, "workers": [s.workers.0, s.workers.1],
-        "connections": s.conns.iter().map(|c| json!({"open_ms": c.open_ms, "close_ms": c.close_ms, "calls": c.calls, "stream_at_ms": c.stream_at_ms})).collect::<Vec<_>>()})
+        "must_serve": s.must_serve, "connections": s.conns.iter().map(|c| json!({"open_ms": c.open_ms, "close_ms": c.close_ms, "calls": c.calls, "stream_at_ms": c.stream_at_ms})).collect::<Vec<_>>()})
 }
 
 fn scn_from(v: &Value) -> Scn {
@@ -51,6 +55,7 @@ fn scn_from(v: &Value) -> Scn {
         idle: v["idle_timeout"].as_u64().unwrap_or(0),
         flag_ms: v["flag_set_at_ms"].as_u64(),
         workers: (v["workers"][0].as_u64().unwrap_or(1) as usize, v["workers"][1].as_u64().unwrap_or(4) as usize),
+        must_serve: v["must_serve"].as_array().map(|a| a.iter().filter_map(|x| x.as_u64()).map(|x| x as usize).collect()).unwrap_or_default(),
         conns: v["connections"]
             .as_array()
             .map(|a| {
@@ -251,6 +256,22 @@ pub fn run_scenario(s: &Scn, tag: &str) -> Result<ScnOutcome, Fail> {
             )));
         }
     }
+    for &i in &s.must_serve {
+        if let Some(o) = obs.iter().find(|o| o.number == i) {
+            // only meaningful when the measured times confirm the plan: connection 0 accepted first,
+            // the flag set 10..70 ms into a poll interval, this connection later in the same interval
+            let (Some(t_a), Some(t_b), Some(tf)) = (obs.iter().find(|x| x.number == 0).and_then(|x| x.connect), o.connect, t_flag) else { continue };
+            let f = ms(tf, t_a);
+            let d = ms(t_b, t_a);
+            let same_interval = f >= 0 && d > f && f / 100 == d / 100 && (10..=70).contains(&(f % 100)) && d % 100 <= 92 && d % 100 >= f % 100 + 10;
+            if same_interval && o.plan.calls > 0 && o.bytes.is_empty() {
+                return Ok(ScnOutcome::Unserved(format!(
+                    "connection #{} connected {} ms after connection #0 was accepted, the stop flag was set at {} ms (same 100 ms poll interval, before the loop could have seen it), yet it got no reply",
+                    i, d, f
+                )));
+            }
+        }
+    }
     if path.exists() {
         return Err(Fail::new("listen/socket-not-removed", format!("{} still exists after listen() returned", path.display())));
     }
@@ -319,28 +340,34 @@ fn fixed_family() -> Vec<Scn> {
     for workers in [(1usize, 1usize), (1, 4), (2, 100)] {
         for idle in [1u64, 2] {
             // no connection at all
-            v.push(Scn { idle, flag_ms: None, workers, conns: vec![] });
+            v.push(Scn { idle, flag_ms: None, workers, conns: vec![], must_serve: vec![] });
             // one arriving just before the deadline
-            v.push(Scn { idle, flag_ms: None, workers, conns: vec![c(idle * 1000 - 150, idle * 1000 - 50, 1, None)] });
+            v.push(Scn { idle, flag_ms: None, workers, conns: vec![c(idle * 1000 - 150, idle * 1000 - 50, 1, None)], must_serve: vec![] });
             // one closing at the deadline
-            v.push(Scn { idle, flag_ms: None, workers, conns: vec![c(100, idle * 1000, 1, None)] });
+            v.push(Scn { idle, flag_ms: None, workers, conns: vec![c(100, idle * 1000, 1, None)], must_serve: vec![] });
             // long-lived across several deadlines (with a late joiner when workers allow)
             let mut conns = vec![c(100, idle * 2500, 2, None)];
             if workers.1 > 1 {
                 conns.push(c(idle * 1000 + 600, idle * 1000 + 900, 1, None));
             }
-            v.push(Scn { idle, flag_ms: None, workers, conns });
+            v.push(Scn { idle, flag_ms: None, workers, conns, must_serve: vec![] });
             // flag + idle timeout together
-            v.push(Scn { idle, flag_ms: Some(400), workers, conns: vec![c(100, 700, 1, None)] });
+            v.push(Scn { idle, flag_ms: Some(400), workers, conns: vec![c(100, 700, 1, None)], must_serve: vec![] });
         }
         // stop flag only
-        v.push(Scn { idle: 0, flag_ms: Some(0), workers, conns: vec![] });
-        v.push(Scn { idle: 0, flag_ms: Some(300), workers, conns: vec![] });
-        v.push(Scn { idle: 0, flag_ms: Some(300), workers, conns: vec![c(50, 200, 2, None)] });
-        v.push(Scn { idle: 0, flag_ms: Some(300), workers, conns: vec![c(100, 900, 1, None)] });
-        v.push(Scn { idle: 0, flag_ms: Some(400), workers, conns: vec![c(100, 1000, 1, Some(395))] });
+        v.push(Scn { idle: 0, flag_ms: Some(0), workers, conns: vec![], must_serve: vec![] });
+        v.push(Scn { idle: 0, flag_ms: Some(300), workers, conns: vec![], must_serve: vec![] });
+        v.push(Scn { idle: 0, flag_ms: Some(300), workers, conns: vec![c(50, 200, 2, None)], must_serve: vec![] });
+        v.push(Scn { idle: 0, flag_ms: Some(300), workers, conns: vec![c(100, 900, 1, None)], must_serve: vec![] });
+        v.push(Scn { idle: 0, flag_ms: Some(400), workers, conns: vec![c(100, 1000, 1, Some(395))], must_serve: vec![] });
         if workers.1 > 1 {
-            v.push(Scn { idle: 0, flag_ms: Some(500), workers, conns: vec![c(50, 1200, 1, Some(498)), c(100, 600, 3, None), c(450, 800, 1, None)] });
+            // connection 0 pins the phase of the 100 ms poll (the loop restarts its wait after every
+            // accept); the flag is set 20-30 ms into a poll interval and connection 1 arrives later in
+            // the same interval, before the loop can have seen the flag: it must be served
+            for (flag, arrive) in [(120u64, 160u64), (225, 270), (330, 385)] {
+                v.push(Scn { idle: 0, flag_ms: Some(flag), workers, conns: vec![c(0, 1500, 1, None), c(arrive, arrive + 400, 2, None)], must_serve: vec![1] });
+            }
+            v.push(Scn { idle: 0, flag_ms: Some(500), workers, conns: vec![c(50, 1200, 1, Some(498)), c(100, 600, 3, None), c(450, 800, 1, None)], must_serve: vec![] });
         }
     }
     v
@@ -361,7 +388,7 @@ fn scn_strategy() -> impl Strategy<Value = Scn> {
             }
             // without idle timeout and without flag listen() never returns: give it a flag
             let flag_ms = if idle == 0 { Some(flag.unwrap_or(6) * 50) } else { flag.map(|f| f * 50) };
-            Scn { idle, flag_ms, workers, conns }
+            Scn { idle, flag_ms, workers, conns, must_serve: vec![] }
         },
     )
 }
